@@ -207,11 +207,7 @@ impl<'r, D: Decl> ShapeVisitor<D> for GetVisitor<'r> {
 /// Run the differential read for `Shape<D>` on (a clone of) `reader`.
 pub fn diff_get<D: Decl>(shape: ShapeId, core: bool, fmt: Format, api: Api, reader: &SimReader) -> GetResult {
     let v = GetVisitor { fmt, api, reader };
-    if core {
-        shapes::dispatch::<D, _>(shape, v)
-    } else {
-        shapes::dispatch_basic::<D, _>(shape, v)
-    }
+    { let _ = core; <D::Shapes as shapes::ShapeSet>::dispatch::<D, _>(shape, v) }
 }
 
 /// JSON `StreamDeserializer`: many values on one stream.
@@ -328,9 +324,5 @@ pub fn build_doc<D: Decl>(
     via_t: bool,
 ) -> Result<Vec<u8>, String> {
     let v = BuildWith::<D> { fmt, aux, raws, via_t };
-    if core {
-        shapes::dispatch::<D, _>(shape, v)
-    } else {
-        shapes::dispatch_basic::<D, _>(shape, v)
-    }
+    { let _ = core; <D::Shapes as shapes::ShapeSet>::dispatch::<D, _>(shape, v) }
 }
